@@ -10,12 +10,16 @@ requested scheduler and returns everything the harness needs.
 from __future__ import annotations
 
 import contextlib
+import logging
 import os
 import random
 import threading
 from pathlib import Path
 
 import numpy as np
+
+
+logging.getLogger("tifffile").setLevel(logging.CRITICAL)   # tag-parsing chatter of the reader
 
 
 def make_pixels(cfg):
